@@ -248,7 +248,7 @@ def run_instance(args):
     return out
 
 
-def run_property(prop, opts, jobs=None, only=None):
+def run_property(prop, opts, jobs=None, only=None, instances=None):
     import multiprocessing as mp
     tasks = []
     for u in REGISTRY.get(prop, []):
@@ -257,6 +257,8 @@ def run_property(prop, opts, jobs=None, only=None):
         if only and only not in u.name:
             continue
         for iname, case in u.instances():
+            if instances is not None and iname not in instances:
+                continue
             tasks.append((prop, u.name, iname, case, opts))
     jobs = jobs or min(len(tasks), int(os.environ.get("VERIF_JOBS", "16"))) or 1
     if jobs <= 1 or len(tasks) <= 1:
